@@ -21,7 +21,14 @@ type endpoint struct {
 	lines []string
 	stats sim.Stats
 	viols []sim.Violation
+	reach []string
 	done  chan struct{}
+}
+
+func (e *endpoint) reachAdd(r string) {
+	e.mu.Lock()
+	e.reach = append(e.reach, r)
+	e.mu.Unlock()
 }
 
 func (e *endpoint) logf(f string, a ...any) {
@@ -73,6 +80,7 @@ type Session struct {
 	eb    *endpoint
 	plan  faultPlan
 	viols []sim.Violation
+	reach []string
 
 	flipped, cutDone, stalled bool
 	tampered                  [2]atomic.Bool // a fault changed / removed bytes in that direction
@@ -204,6 +212,7 @@ func (s *Session) merge() {
 			s.log.Addf("%s", l)
 		}
 		s.stats.Merge(e.stats)
+		s.reach = append(s.reach, e.reach...)
 		for _, v := range e.viols {
 			s.violate(v.Property, v.Invariant, v.Detail)
 		}
